@@ -85,6 +85,22 @@ def _quiet():
     return cm
 
 
+def _close_db(db) -> None:
+    """odxtools never closes the ZipFile it opens in add_pdx_file; do it for the databases the
+    check loads itself so that the temp directory can be removed and no ResourceWarning is left"""
+    try:
+        for aux in list(db.auxiliary_files.values()):
+            zf = getattr(getattr(getattr(aux, "_fileobj", None), "_close", None), "__self__", None)
+            try:
+                aux.close()
+            except Exception:
+                pass
+            if isinstance(zf, zipfile.ZipFile):
+                zf.close()
+    except Exception:
+        pass
+
+
 def _xml_context(data: bytes, line: int, col: int) -> str:
     """names the attribute or element in which the XML parser stopped"""
     try:
@@ -212,6 +228,7 @@ def evaluate(db1, case: dict, classes: set, perturbed: Optional[List[str]] = Non
     fails: List[core.Failure] = []
     tmp = tempfile.mkdtemp(prefix="c11_")
     cm = _quiet()
+    db2 = None
     try:
         pp.set_strict(True)
         p1 = os.path.join(tmp, "w1.pdx")
@@ -292,6 +309,9 @@ def evaluate(db1, case: dict, classes: set, perturbed: Optional[List[str]] = Non
                                           {"bucket": f"{pkey}|{what}", "key": pkey, "mode": "behaviour"}))
         return fails
     finally:
+        if db2 is not None:
+            _close_db(db2)
+        _close_db(db1)
         cm.__exit__(None, None, None)
         shutil.rmtree(tmp, ignore_errors=True)
 
@@ -421,11 +441,8 @@ def _eval_order(case: dict, res: Optional[core.ShardResult]) -> List[core.Failur
                                           f"{got.model_version} via {entry}", case,
                                           {"bucket": f"{entry}|Database.model_version", "mode": "altered",
                                            "entry": entry, "key": "Database.model_version"}))
-            for o in list(got.auxiliary_files.values()):
-                try:
-                    o.close()
-                except Exception:
-                    pass
+            _close_db(got)
+        _close_db(ref)
         if res is not None:
             res.note(case, nontrivial, classes)
         return fails
@@ -436,6 +453,7 @@ def _eval_order(case: dict, res: Optional[core.ShardResult]) -> List[core.Failur
 
 def replay(case) -> list:
     from vlib.models import pdxperturb as pp
+    warnings.filterwarnings("ignore", category=ResourceWarning)   # zip handles odxtools leaves open
     case = core.unjson(case)
     kind = case["kind"]
     if kind == "example":
@@ -502,6 +520,7 @@ def run_shard(spec, seed, tier):
     res = core.ShardResult()
     kf = known.load(PROPERTY)
     what, i = spec
+    warnings.filterwarnings("ignore", category=ResourceWarning)   # zip handles odxtools leaves open
 
     if what == "examples":
         n = 0
@@ -543,7 +562,7 @@ def run_shard(spec, seed, tier):
         for name in pp.EXAMPLES:
             idx = pp.Index(pp.load_example(name))
             pts_by_db[name], _ = pp.matrix(name, idx, 2)
-        n = 5 if tier == "quick" else 40
+        n = 4 if tier == "quick" else 40
 
         @st.composite
         def strat(draw):
@@ -595,7 +614,7 @@ def run_shard(spec, seed, tier):
 
     if what == "order":
         from hypothesis import strategies as st
-        n = 10 if tier == "quick" else 60
+        n = 8 if tier == "quick" else 60
         strat = st.fixed_dictionaries({
             "kind": st.just("order"),
             "db": st.sampled_from(sorted(pp.EXAMPLES)),
